@@ -118,7 +118,13 @@ func biasedBytes(r *Rng, l int) []byte {
 func handBody(r *Rng, multi bool) []byte {
 	var b []byte
 	b = append(b, cstr(nonZeroBytes(r, r.Intn(5)))...) // service_type
-	addr := func() []byte { return append([]byte{r.Byte(), r.Byte()}, cstr(nonZeroBytes(r, r.Intn(12)))...) }
+	addr := func() []byte {
+		if r.Intn(2) == 0 {
+			a := loadedAddr(r)
+			return append([]byte{a.TON, a.NPI}, cstr([]byte(a.No))...)
+		}
+		return append([]byte{r.Byte(), r.Byte()}, cstr(nonZeroBytes(r, r.Intn(12)))...)
+	}
 	b = append(b, addr()...)
 	if multi {
 		n := r.Pick([]int{0, 1, 2, 3, 6})
@@ -256,10 +262,13 @@ func stdIEFrames() [][]byte {
 
 func corrC13(r *Run) {
 	r.Import("Model.PduRun")
+	r.Import("Model.PduHazards")
 	r.PerShard(60)
 	r.Rule = "frames accepted by ReadPDU: valid frames of every type with raw TLV sections appended (unsorted, duplicate, empty values), trailing octets, random octet mutations " +
 		"(boolean octets other than 0/1, flag octets), hand-laid submit_sm / deliver_sm / submit_multi bodies (distribution lists before SME addresses, duplicate UDH elements, " +
 		"UDHL and sm_length lies); each decoded value re-encoded, decoded and encoded again; plus values with maps of 2..50 entries rebuilt in 8 insertion orders; " +
+		"a deterministic corpus of loaded field contents (number forms x TON 0..7 x NPI 0..15/18, dates, service types, credentials) in every string / address position of every type, laid out by a reference encoder; " +
+		"histories: one value marshalled before and after a failing Marshal of every refusal kind at every field position and every writer failure; " +
 		"non-trivial = distinct accepted frame whose decoded value Marshal accepts"
 	ts := pduTypes()
 	n := r.N(8000, 150000)
@@ -339,6 +348,14 @@ func corrC13(r *Run) {
 	for k, f := range stdIEFrames() {
 		reencode(f, "std-ie", k%6 == 0)
 	}
+	// deterministic corpus of semantically loaded contents (E.164 number forms over the TON x NPI grid, dates, service
+	// types, credentials) in every C-octet-string / address / destination / unsuccess-record position of every type,
+	// laid out by the harness's reference encoder (not by the library's encoders)
+	for k, it := range corpusPDUs(ts, 1, 0) {
+		if f, ok := refEncode(it.p, it.t.ID); ok {
+			reencode(f, "loaded-content", k%250 == int(r.Seed%250))
+		}
+	}
 	for i := 0; i < n; i++ {
 		var frame []byte
 		bucket := ""
@@ -393,6 +410,18 @@ func corrC13(r *Run) {
 			continue
 		}
 		reencode(frame, bucket, true)
+	}
+	// determinism across histories: the same unchanged value marshalled before and after a Marshal call that FAILS —
+	// every refusal kind at every field position of every type, and destinations that give up after k octets
+	for ti, t := range ts {
+		base := poisonBase(r.Rng, t)
+		for k, x := range allPoisons(t, base) {
+			b1, b2, ok := sandwich(r, "determinism", t, base, x)
+			r.Count(fmt.Sprintf("sandwich/%s/%s", t.Name, x), ok, "history/"+x.kind)
+			if ok && (k+ti)%9 == int(r.Seed%9) {
+				historyCase(r, t, base, x, b1, b2)
+			}
+		}
 	}
 	// determinism: same value, maps rebuilt in different insertion orders, marshalled repeatedly
 	nd := r.N(150, 3000)
